@@ -32,7 +32,10 @@ import traceback
 VERIF = os.path.dirname(os.path.dirname(os.path.abspath(__file__)))
 NWORKERS = int(os.environ.get("VERIF_WORKERS", "16"))
 MAX_VIOL_PER_WORKER = 400
-MAX_VIOL_PER_CLASS = 3
+# watchdog: a unit that runs longer than this is killed (SIGALRM) and reported as a violation of that unit
+# ("worker process died (signal 14)"): a change that makes the library loop on garbage must not hang the check
+UNIT_TIMEOUT = int(os.environ.get("VERIF_UNIT_TIMEOUT", "240"))
+MAX_VIOL_PER_CLASS = int(os.environ.get("VERIF_MAX_VIOL_PER_CLASS", "3"))
 
 
 def message_class(message):
@@ -149,7 +152,10 @@ class Rec(object):
         self.outcomes.update(o.outcomes)
         self.violations.extend(o.violations)
         self.nviol += o.nviol
+        mx = max(self.extra.get("max_unit_seconds", 0), o.extra.get("max_unit_seconds", 0))
         self.extra.update(o.extra)
+        if mx:
+            self.extra["max_unit_seconds"] = mx
         self.known.update(o.known)
         self.vclasses.update(o.vclasses)
         if self.first is None:
@@ -202,13 +208,20 @@ def _run_sharded(part, units, work, nworkers, tmpdir, per_worker_setup=None, uni
                 rec.tmp = wtmp
                 if per_worker_setup:
                     per_worker_setup(w)
+                signal.signal(signal.SIGALRM, signal.SIG_DFL)
                 for i in idxs:
                     slots[w] = i
+                    signal.alarm(UNIT_TIMEOUT)
+                    t_unit = time.time()
                     try:
                         work(units[i], rec)
                     except Exception:
                         rec.fail(unit_case(units[i]),
                                  "harness/unit raised: " + traceback.format_exc()[-1500:])
+                    signal.alarm(0)
+                    t_unit = time.time() - t_unit
+                    if t_unit > rec.extra.get("max_unit_seconds", 0):
+                        rec.extra["max_unit_seconds"] = round(t_unit, 2)
                 slots[w] = -2
                 del rec.tmp
                 with open(out + ".tmp", "wb") as f:
@@ -239,6 +252,8 @@ def _run_sharded(part, units, work, nworkers, tmpdir, per_worker_setup=None, uni
         cur = slots[w]
         how = ("signal %d" % os.WTERMSIG(status)) if os.WIFSIGNALED(status) else (
             "exit status %d" % os.WEXITSTATUS(status))
+        if os.WIFSIGNALED(status) and os.WTERMSIG(status) == signal.SIGALRM:
+            how += ": still running after %d s, killed by the watchdog" % UNIT_TIMEOUT
         if cur >= 0:
             total.fail(unit_case(units[cur]),
                        "worker process died (%s) while executing this unit" % how)
@@ -270,6 +285,9 @@ class Ctx(object):
         self.tier = tier
         self.seed = seed
         self.quick = tier == "quick"
+        global UNIT_TIMEOUT
+        if tier != "quick" and "VERIF_UNIT_TIMEOUT" not in os.environ:
+            UNIT_TIMEOUT = 1200
         self.parts = collections.OrderedDict()
         self.replay_request = replay
         self.t0 = time.time()
